@@ -40,6 +40,19 @@ pub fn init() {
     });
 }
 
+/// Register the callback the shim makes before passing a file-system request on.
+pub fn set_fs_hook(h: extern "C" fn(i32)) -> bool {
+    unsafe {
+        let f = dlsym(std::ptr::null_mut(), b"tzseam_set_hook\0".as_ptr() as *const c_char);
+        if f.is_null() {
+            return false;
+        }
+        let f: unsafe extern "C" fn(extern "C" fn(i32)) = std::mem::transmute(f);
+        f(h);
+        true
+    }
+}
+
 pub fn present() -> bool {
     matches!(SHIM.get(), Some(Some(_)))
 }
